@@ -50,6 +50,7 @@ LEVEL_TEXT = (
 )
 
 FUEL = 20000
+TIMEOUTS = (12.0, 45.0)  # seconds: first attempt, retry in a fresh node process (a defined execution needs < FUEL ir steps)
 STACKSIZE = 1000  # ppci2wasm: IrToWasmCompiler.STACKSIZE, the whole virtual stack of a translated module
 WTY = {"i8": "i32", "u8": "i32", "i16": "i32", "u16": "i32", "i32": "i32", "ptr": "i32",
        "u32": "i64", "i64": "i64", "u64": "i64", "f32": "f32", "f64": "f64"}
@@ -304,7 +305,7 @@ def node():
     if _NODE is None:
         from ..irnode import IrNodeRunner
 
-        _NODE = IrNodeRunner(timeout_s=40.0)
+        _NODE = IrNodeRunner(timeout_s=TIMEOUTS[0])
     return _NODE
 
 
@@ -388,7 +389,7 @@ def run_wasm(wasm, exts, groups):
     """One node job, a retry with a long time-out when the first attempt does not answer."""
     from ..irnode import NodeError, NodeTimeout
 
-    for attempt, tmo in enumerate((40.0, 150.0)):
+    for attempt, tmo in enumerate(TIMEOUTS):
         try:
             return node().run_groups(wasm, ext=exts, groups=groups, timeout_s=tmo)
         except NodeTimeout:
@@ -485,7 +486,7 @@ def run_case(case, stats=None):
     if ans is None:
         if not groups:
             raise Discard("node time-out")
-        return "V8 does not finish executing the translated module (two attempts, 40 s and 150 s) although every call terminates within %d IR steps" % FUEL, info
+        return "V8 does not finish executing the translated module (two attempts, %d s and %d s) although every call terminates within %d IR steps" % (TIMEOUTS[0], TIMEOUTS[1], FUEL), info
     if ans["compile"]:
         return "ir_to_wasm output does not validate in V8: %s" % ans["compile"][:300], info
     for g in ans["groups"]:
@@ -866,7 +867,7 @@ def _sweep_fn(name, params, ret, blocks):
 
 
 def _sweep_case(tag, fns, calls):
-    desc = {"ptr_bits": 32, "globals": [{"name": "g0", "size": 8, "align": 8, "init": None}], "externals": [], "functions": fns}
+    desc = {"ptr_bits": 32, "globals": [{"name": "g0", "size": 16, "align": 8, "init": None}], "externals": [], "functions": fns}
     return {"module": desc, "calls": calls, "init": "stores", "variant": "sweep", "tag": tag}
 
 
@@ -881,7 +882,13 @@ def sweep_cases():
         tail = ([["cast", "y", w, "x"], ["ret", "y"]] if w != t else [["ret", "x"]])
         for op in (genir.FLOAT_OPS if fl else genir.INT_OPS + genir.ROT_OPS):
             f = _sweep_fn("f0", [["a", t], ["b", t]], w, [["binop", "x", t, "a", op, "b"], ["store", "x", "g0", False]] + tail)
-            cases.append(_sweep_case("binop:%s:%s" % (t, op), [f], [["f0", p] for p in pairs]))
+            ps = pairs
+            if op in ("<<", ">>", "rol", "ror"):  # counts inside [0, bits): anything else is undefined in ir terms
+                nb = genir.BITS[t]
+                ps = [[a, c] for a in vals for c in (0, 1, 2, 3, 7, nb // 2, nb - 2, nb - 1)]
+            elif op in ("/", "%"):
+                ps = [p for p in pairs if p[1] != 0]
+            cases.append(_sweep_case("binop:%s:%s" % (t, op), [f], [["f0", p] for p in ps]))
         for op in (["-"] if fl else ["-", "~"]):
             f = _sweep_fn("f0", [["a", t]], w, [["unop", "x", t, op, "a"], ["store", "x", "g0", False]] + tail)
             cases.append(_sweep_case("unop:%s:%s" % (t, op), [f], [["f0", [a]] for a in _boundary(t, 20)]))
@@ -907,9 +914,9 @@ def sweep_cases():
     return cases
 
 
-def _sweep_worker(arg):
+def _sweep_worker(arg, stats=None, keep_node=False):
     shard, nshards = arg
-    stats = Stats()
+    stats = stats or Stats()
     fails = []
     from ..core import open_finding_ids
 
@@ -933,17 +940,20 @@ def _sweep_worker(arg):
                 if kid and kid in open_ids:
                     stats.known[kid] += 1
                 elif len(fails) < 2:
-                    small = dict(case)
-                    fails.append((small, msg))
+                    fails.append((dict(case), msg))
     finally:
-        close_node()
+        if not keep_node:
+            close_node()
     return stats, fails
 
 
 def _worker(arg):
-    seed, n = arg
+    seed, n, shard = arg
     stats = Stats()
     exclude = open_kfs()
+    sweep_fails = []
+    if shard is not None:
+        _, sweep_fails = _sweep_worker((shard, 16), stats, keep_node=True)
 
     def prop(case):
         import time
@@ -979,13 +989,12 @@ def _worker(arg):
         fails = hyp_search(case_strategy(exclude, stats.excluded), prop, n, seed, stats, classify=classify)
     finally:
         close_node()
-    return stats, fails
+    return stats, sweep_fails + fails
 
 
 def run(ctx):
-    n = ctx.scale(1200, 48000)
-    ctx.pmap(_sweep_worker, [(w, 16) for w in range(16)])
-    ctx.pmap(_worker, [(subseed(ctx.seed, PID, w), max(1, n // 16)) for w in range(16)])
+    n = ctx.scale(960, 48000)
+    ctx.pmap(_worker, [(subseed(ctx.seed, PID, w), max(1, n // 16), w) for w in range(16)])
     h = ctx.stats.hist
     rej = {k: v for k, v in h.items() if str(k).startswith("rejected:")}
     ctx.extra["rejections_by_class"] = dict(sorted(rej.items(), key=lambda kv: -kv[1]))
